@@ -75,7 +75,7 @@ PROPS = {
         'explanation': 'Direct ingress path: exactly one event, after the put, iff the put returned Inserted; none on any Err exit; Local / Remote marking with provider and content status; download flag equals the policy verdict.',
     },
     'C07': {
-        'vx': ['U-cap-merge', 'U-cap-import', 'U-valid-insert'],
+        'vx': ['U-cap-merge', 'U-cap-import', 'U-valid-insert', 'U-actor-close'],
         'kx': [],
         'assumptions': [A_REDB, A_MODIFY, 'A-crypto-2: NamespaceSecret is opaque; id(), to_bytes/from_bytes are uninterpreted with to_bytes/from_bytes mutually inverse',
                         'num_enum conversions of CapabilityKind: 1 = Write, 2 = Read, anything else an error (derive output not examined)',
@@ -86,13 +86,14 @@ PROPS = {
     'C09': {
         'vx': ['U-codec-frame', 'U-cap-merge', 'U-rid', 'U-rid-order', 'U-heads-merge'],
         'kx': [],
+        'bx': ['heads_encode'],
         'assumptions': ['A-postcard: postcard::from_bytes / to_slice / serialized size are uninterpreted total functions; serde-derive code is not examined',
                         'BytesMut is an abstract growable byte buffer (len, advance, put_u32, resize, range indexing) with len <= isize::MAX'],
         'not_covered': ['round trip of Message/SignedEntry/tickets/heads through serde-derive and postcard, pinned hex snapshots, FilterKind Display/FromStr (macro generated / string code)'],
         'explanation': 'Framing: decode never panics, reports short input as need-more-data and oversized frames as errors, consumes exactly one frame; encode appends exactly one frame; chunking lemmas; capability raw round trip.',
     },
     'C10': {
-        'vx': ['U-codec-bob', 'U-codec-alice', 'U-codec-conn'],
+        'vx': ['U-codec-bob', 'U-codec-alice', 'U-codec-conn', 'U-codec-frame'],
         'kx': [],
         'assumptions': ['streams are arbitrary frame sequences (FramedRead::next returns any frame or error, FramedWrite::send any result); SyncHandle::sync_process_message returns arbitrary Ok/Err and logs its calls in a ghost log',
                         'tracing spans / Instrument are identity shells; termination of stream-driven loops is not claimed (exec_allows_no_decreases_clause)',
@@ -138,8 +139,9 @@ PROPS = {
         'explanation': 'entry_put keeps the per-author head at the maximum timestamp; remove_replica deletes the heads of the removed document.',
     },
     'C16': {
-        'vx': ['U-rmrep', 'U-bounds', 'U-hashes', 'U-cap-import'],
+        'vx': ['U-rmrep', 'U-bounds', 'U-hashes', 'U-cap-import', 'U-peers', 'U-policy-store', 'U-actor-close'],
         'kx': [KX['U-incr32']],
+        'bx': ['c16_remove'],
         'assumptions': [A_REDB, A_INCR, A_MODIFY, 'HashSet<NamespaceId> open_replicas is an abstract set with the std contains/insert/remove contracts'],
         'not_covered': ['engine.rs gc_protect_task (consumer of the content-hash iterator)', 'RecordsRange / snapshot_owned are shells (A-redb)'],
         'explanation': 'remove_replica refuses open documents and otherwise removes exactly the rows of the named document from all six per-document tables, leaving every other row unchanged.',
